@@ -39,7 +39,7 @@ describe(
         "polarity in the three sibling routines; the objective sign is restored exactly for maximisation with "
         "original-objective reporting; the Pareto filter has the right dominance polarity and excludes infeasible points."
     ),
-    decided=["4.1 single record", "4.2 running minimum", "4.3 feasibility flag", "4.4 tolerance routing", "4.5 sign restoration and index", "4.6 Pareto polarity"],
+    decided=["4.1 single record", "4.2 running minimum", "4.3 feasibility flag", "4.4 tolerance routing", "4.5 sign restoration and index", "4.6 Pareto polarity", "4.8 one tolerances object shared by the problem and its constraints"],
     not_decided=["arithmetic of the violation measure", "NaN ordering and ties", "vector objectives through norm"],
 )
 
